@@ -173,8 +173,8 @@ def gen_spec(rng, pairing=None, small=False, allow_tiering=False,
     # machine ids: usually m0..mk; sometimes ids that are prefixes / substrings of
     # one another (m1, m10, m11, ... as in the large shipped configurations)
     if rng.random() < 0.3:
-        names = rng.sample(["m1", "m10", "m11", "m100", "m101", "cat0_m1", "cat0_m10", "1", "11"], nm)
-        rng.shuffle(names)
+        names = rng.sample(["m1", "m10", "m11", "m100", "m101", "cat0_m1", "cat0_m10", "1", "11", "M1", "Cat0_M1", "M10"], nm)
+        rng.shuffle(names)      # (ids that differ only in case are different machines too)
     else:
         names = ["m%d" % i for i in range(nm)]
     machines = [{"id": names[i], "flops": speeds[i],
@@ -233,7 +233,8 @@ def gen_spec(rng, pairing=None, small=False, allow_tiering=False,
                 lo = rng.randint(1, nm)
                 split[o["name"]] = [lo, rng.randint(lo, nm)]
             sched["split"] = split
-            sched["min"] = 1
+            # the configured minimum holds beside the split (it may exceed an observation's own lower limit)
+            sched["min"] = rng.choice([1, 1, rng.randint(1, min(v[1] for v in split.values()))])
         spec["planning"] = "batch"
         spec["scheduling"] = sched
     elif pairing == "queue":
